@@ -134,11 +134,16 @@ CLAIMS = {
  "C19": ("(i) templates_closed: over the table of all 280 quote! templates regenerated from /repo/src, every identifier in reference position "
          "is bound by a template of the same handler (decide +kernel); closed_env_independent / generated_code_env_independent: such a template "
          "resolves identically in every derive-site environment. (ii) binder_formats_no_clash over the regenerated format_ident! table + "
-         "noClash_sound (two binder formats of one handler never produce the same name from different fields), hasherName_fresh (the hasher type "
-         "parameter is chosen away from the type's generic names). Tie: rustc as oracle - five definition families x all traits x name "
+         "noClash_sound (two binder formats of one handler never produce the same name from different fields), pickName_fresh / pickName_first with hasherName_fresh and "
+         "debugFieldName_fresh (the hasher type parameter and the Debug wrapper struct are the first candidate H, H_, ... / Educe__DebugField, "
+         "Educe__DebugField_, ... that neither a generic parameter nor - for the struct - the type itself uses). (iii) "
+         "method_calls_only_on_fmt_locals: over the regenerated templates, every method-call expression is a core::fmt builder call on `f` or "
+         "`builder` (a call written `a.cmp(b)` would be resolved through the user's type, inherent methods first). Tie: rustc as oracle - five definition families x all traits x name "
          "assignments drawn from the templates' identifier inventory, primitive names and binder-collision families, compiled inside a module in "
          "which every template identifier, prelude name, primitive type, `core`/`std` and macro name means something else, results compared with "
-         "the neutral twin; #![no_std] build; const-parameter probe (known finding).",
+         "the neutral twin, with decoy inherent methods on every type and every third assignment through a macro_rules! macro with "
+         "`$x:ident` fragments; #![no_std] build; in-process expansions of definitions named like the candidates against pickName (driver op "
+         "pickname); const-parameter probe (known finding).",
          COMMON_NOTE + "rustc's name resolution is the oracle for the compile half; the reference-position analysis (Names.lean: after `.`/`::`, attributes, binders) is a syntactic approximation validated by the hostile-context runs; one known finding (const parameter named like a generated local) is recorded rather than repaired.",
          "Lean 4 theorems (decide +kernel over regenerated template and binder-format tables; soundness lemmas) + hostile-naming-context compile-and-run correspondence"),
  "C01": ("The generator-dependent part of `compiles`, clause by clause: eq_/cmp_/hash_/clone_body_well_scoped (for every definition, attribute "
